@@ -659,11 +659,14 @@ class Router:
             look up the sender's LocTE for the §D SE_POS_VALID / F_SE check.
             None for source operations (ego is the originator).
         """
+        # One load of the (immutable) ego position vector: refresh_ego_position_vector replaces the
+        # object from the GPS thread, latitude and longitude must come from the same vector.
+        ego_pv = self.ego_position_vector
         f_ego = self.gn_geometric_function_f(
             request.packet_transport_type.header_subtype,
             request.area,
-            self.ego_position_vector.latitude,
-            self.ego_position_vector.longitude,
+            ego_pv.latitude,
+            ego_pv.longitude,
         )
 
         if f_ego >= 0:
@@ -1195,11 +1198,13 @@ class Router:
             angle=gbc_extended_header.angle,
         )
         # Step 7: determine function F(x,y) per ETSI EN 302 931 §5
+        # (one load of the ego position vector: the GPS thread replaces the object)
+        ego_pv = self.ego_position_vector
         area_f = self.gn_geometric_function_f(
             common_header.hst,  # type: ignore
             area,
-            self.ego_position_vector.latitude,
-            self.ego_position_vector.longitude,
+            ego_pv.latitude,
+            ego_pv.longitude,
         )
         try:
             # Step 3: DPD – duplicate packet detection (via location table)
@@ -1235,11 +1240,14 @@ class Router:
             if so_entry is not None and so_entry.pdr > self.mib.itsGnMaxPacketDataRate * 1000:
                 return None
             # §D (Annex D): discard if sender is inside/at border of area (SE_POS_VALID AND F_SE ≥ 0)
-            if so_entry is not None and so_entry.position_vector.pai:
+            # One load of the LocTE position vector: a concurrent reception from the same station
+            # replaces the (immutable) object, PAI and position must come from the same vector.
+            so_pv = so_entry.position_vector if so_entry is not None else None
+            if so_pv is not None and so_pv.pai:
                 f_se = self.gn_geometric_function_f(
                     common_header.hst, area,  # type: ignore
-                    so_entry.position_vector.latitude,
-                    so_entry.position_vector.longitude,
+                    so_pv.latitude,
+                    so_pv.longitude,
                 )
                 if f_se >= 0:
                     return None
@@ -1643,11 +1651,13 @@ class Router:
             longitude=gbc_extended_header.longitude,
             angle=gbc_extended_header.angle
         )
+        # one load of the ego position vector: the GPS thread replaces the object
+        ego_pv = self.ego_position_vector
         area_f = self.gn_geometric_function_f(
             common_header.hst,  # type: ignore
             area,
-            self.ego_position_vector.latitude,
-            self.ego_position_vector.longitude,
+            ego_pv.latitude,
+            ego_pv.longitude,
         )
         # Step 3: DPD (Duplicate Packet Detection) – run before DAD for GREEDY/SIMPLE/UNSPECIFIED
         # forwarding algorithms (§10.3.11.3 step 3a/3b)
